@@ -712,7 +712,7 @@ func init() {
 				var pos token.Pos
 				// the encoder calls of the function, looking through unexported helpers of the same type
 				for _, x := range expandCalls(c, f, func(g *ssa.Function) bool {
-					return c.P.InModule(g) && namedOf(recvType(g)) == rt && g.Object() != nil && !g.Object().Exported() && g.Name() != t.callee
+					return c.P.InModule(g) && namedOf(recvType(g)) == rt && g.Object() != nil && !g.Object().Exported() && g.Name() != t.callee && !isRuneEncoder(c, g)
 				}, 2) {
 					call := x.Call
 					name := ""
@@ -721,12 +721,18 @@ func init() {
 					} else if call.Common().IsInvoke() {
 						name = call.Common().Method.Name()
 					}
-					if name != t.callee {
+					// the encoder under its reviewed name, or (for the rune encoder) any function of the module with its role
+					if name != t.callee && !(t.callee == "percentEncodeRune" && isRuneEncoder(c, call.Common().StaticCallee())) {
 						continue
 					}
 					pos = call.Pos()
 					args := call.Common().Args
 					last := x.Root(args[len(args)-1])
+					for _, a := range args {
+						if namedOf(a.Type()) == "PercentEncodeSet" {
+							last = x.Root(a)
+						}
+					}
 					if ld, ok := last.(*ssa.UnOp); ok {
 						if g, ok := ld.X.(*ssa.Global); ok {
 							got[g.Name()] = true
@@ -847,6 +853,70 @@ func onlyUnderTrigger(c *Ctx, f *ssa.Function, ld *ssa.UnOp, trig func(b *ssa.Ba
 		}
 	}
 	return n > 0
+}
+
+// isRuneEncoder: a function of the module that takes one code point (rune or byte) and a *PercentEncodeSet and either
+// returns text or writes into a *strings.Builder it is handed, and asks the set whether the code point is to be encoded
+// (directly or through another rune encoder): percentEncodeRune under whatever name and signature.
+func isRuneEncoder(c *Ctx, g *ssa.Function) bool {
+	if g == nil || len(g.Blocks) == 0 || !c.P.InModule(g) {
+		return false
+	}
+	return c.Memo("isRuneEncoder:"+g.String(), func() interface{} {
+		var setP *ssa.Parameter
+		hasR, hasB := false, false
+		for _, p := range g.Params {
+			switch {
+			case namedOf(p.Type()) == "PercentEncodeSet" && p != g.Params[0]:
+				setP = p
+			case namedOf(p.Type()) == "PercentEncodeSet" && g.Signature.Recv() == nil:
+				setP = p
+			case p.Type().String() == "*strings.Builder":
+				hasB = true
+			default:
+				if b, ok := p.Type().Underlying().(*types.Basic); ok && (b.Kind() == types.Int32 || b.Kind() == types.Uint8) {
+					hasR = true
+				}
+			}
+		}
+		if setP == nil || !hasR {
+			return false
+		}
+		res := g.Signature.Results()
+		if !(hasB && res.Len() == 0) && !(res.Len() == 1 && isStringType(res.At(0).Type())) {
+			return false
+		}
+		// the set parameter is asked, or handed to a function that is itself a rune encoder
+		seen := map[ssa.Value]bool{}
+		asked := false
+		var follow func(v ssa.Value)
+		follow = func(v ssa.Value) {
+			if seen[v] || asked {
+				return
+			}
+			seen[v] = true
+			for _, r := range *v.Referrers() {
+				switch x := r.(type) {
+				case *ssa.Phi:
+					follow(x)
+				case *ssa.Call:
+					cl := x.Common().StaticCallee()
+					if cl == nil {
+						continue
+					}
+					if namedOf(recvType(cl)) == "PercentEncodeSet" && strings.HasSuffix(cl.Name(), "ShouldBeEncoded") {
+						asked = true
+					} else if namedOf(recvType(cl)) == "PercentEncodeSet" && namedOf(x.Type()) == "PercentEncodeSet" {
+						follow(x) // tr.Set('%')
+					} else if cl != g && isRuneEncoder(c, cl) {
+						asked = true
+					}
+				}
+			}
+		}
+		follow(setP)
+		return asked
+	}).(bool)
 }
 
 // soleReporterOf: the one function of the module with a call of an error handler for the named error type.
